@@ -12,6 +12,7 @@ __all__ = ("MergeEngine", "alias_cset", "map_new_cset_livefs")
 
 import io
 import operator
+import os
 import tempfile
 import traceback
 import typing
@@ -426,7 +427,12 @@ class MergeEngine:
         if fsobj:
             source = fsobj.data
             if source.mutable:
-                return fsobj
+                # already writable: hand back the data source itself, like every other branch
+                if empty:
+                    handle = source.bytes_fileobj(True)
+                    handle.truncate(0)
+                    handle.close()
+                return source
             if self.allow_reuse and prefer_reuse:
                 path = source.path
 
@@ -447,7 +453,8 @@ class MergeEngine:
 
         # clone it into tempspace; it's required we control the tempspace,
         # so this function is safe in our usage.
-        _fd, path = tempfile.mkstemp(prefix="merge-engine-", dir=self.tempdir)
+        fd, path = tempfile.mkstemp(prefix="merge-engine-", dir=self.tempdir)
+        os.close(fd)
 
         # XXX: annoying quirk of python, we don't want append mode, so 'a+'
         # isn't viable; wr will truncate the file, so data_source uses r+.
@@ -456,9 +463,9 @@ class MergeEngine:
         # just touch the filepath.
         touch(path)
         new_source = data_source.local_source(
-            path, True, encoding=getattr(fsobj, "encoding", None)
+            path, True, encoding=getattr(source, "encoding", None)
         )
 
-        if source and not empty:
-            data_source.transfer(source.bytes_fsobj(), new_source.bytes_fsobj(True))
+        if source is not None and not empty:
+            source.transfer_to_data_source(new_source)
         return new_source
